@@ -197,3 +197,16 @@ def case(rng, mode=None, mutate_p=0.3):
     if rng.random() < mutate_p:
         data = mutate(rng, data)
     return mode, data, script
+
+def canon_rest(req, ans):
+    """by-value sources cannot report the octets left: drop that field on both sides"""
+    toks = req.split(" ")
+    if toks and toks[0] == "meter":
+        toks = toks[1:]
+    if len(toks) > 2 and toks[0] == "run":
+        src = toks[2]
+        if src in ("slicev", "bytesv") or src.startswith("osrc"):
+            if ans.startswith("ok"):
+                import re
+                return re.sub(r" \| rest=[0-9?]+", "", ans)
+    return ans
